@@ -517,7 +517,11 @@ def order_taint(ctx: Ctx):  # noqa: C901, PLR0912
                         findings.append((q, "positional subscript", k, s[1], s))
     # the canonical order must not be sorted / hash ordered
     gvi = prog.frame("lcm.input_processing.util.get_variable_info")
-    order = gvi.env.get("order")
+    order = None
+    for s_ in walk(gvi.ret):
+        if s_[0] == "sub" and s_[1][0] == "attr" and s_[1][2] == "loc":
+            order = s_[2]
+            break
     if order is not None:
         k = taint.kind(order)
         n_sinks += 1
